@@ -5,6 +5,7 @@ import (
 	"encoding/json"
 	"fmt"
 	"path/filepath"
+	"slices"
 	"sort"
 	"strings"
 
@@ -439,7 +440,7 @@ func init() {
 	})
 	vc.Register(&vc.Check{
 		ID: "C19", Level: "exploration",
-		Rule: "complete upload sessions (0x1210, 0x1211, chunks, 0x1212, EOF) with the DEFAULT file handler on a virtual file system rooted at a sandbox directory, for announced names = ALL strings of length 1..6 over {a . /} (1092), each also with a leading '/', with an embedded NUL, '../' repeated up to the 255-byte wire limit, 50-byte chunk-header names, names that resolve to existing files outside (../file.log), names that climb out into a sibling whose name begins with the terminal's own directory name (../<phone>1/x, ../<phone>.bak/z, ../<phone>_note), x 3 phones. " +
+		Rule: "complete upload sessions (0x1210, 0x1211, chunks, 0x1212, EOF) with the DEFAULT file handler on a virtual file system rooted at a sandbox directory, for announced names = ALL strings of length 1..6 over {a . /} (1092) and all strings of length 1..5 over {a . / \\} that contain a backslash, EVERY byte value 0..255 in five separator positions (..Xe, ..X..Xe, X../e, aX../../e, X), each short name also with a leading '/', with an embedded NUL, '../' repeated up to the 255-byte wire limit, 50-byte chunk-header names, names that resolve to existing files outside (../file.log), names that climb out into a sibling whose name begins with the terminal's own directory name (../<phone>1/x, ../<phone>.bak/z, ../<phone>_note), x 3 phones. " +
 			"Every create/write target of the handler is logged by the vos shim (and carried out only inside the sandbox); it must lie under <root>/<phone>/ (the handler's own file.log excepted). Non-trivial = name contains '..' or '/'",
 		Assumptions: []string{"the os calls of attachment/file_event.go are routed to harness/vos by import rewriting (vgen); paths are resolved lexically (no symlinks in the sandbox)"},
 		Run:         c19Run,
@@ -569,17 +570,25 @@ func c15Run(ctx *vc.Ctx, rep *vc.Report) {
 			}
 		}
 		// a lost chunk, the completion report, the resend of exactly what it named, the second completion report
-		for size := 3; size <= 6; size++ {
+		// (every non-empty set of lost chunks, including ALL of them: a completion frame for a file of which nothing arrived)
+		for size := 1; size <= 6; size++ {
 			base := splitChunks(0, size, 2)
-			for drop := range base {
-				c := upCase{Dialect: di, AlarmID: "lost", Files: []upFile{{Name: "l.bin", Data: upData(size, 7)}, {Name: "whole.bin", Data: upData(3, 9)}}, Finish: true, Second: true}
-				for i, ch := range base {
-					if i != drop {
-						c.Chunks = append(c.Chunks, ch)
+			for mask := 1; mask < 1<<len(base); mask++ {
+				for _, alone := range []bool{false, true} {
+					c := upCase{Dialect: di, AlarmID: "lost", Files: []upFile{{Name: "l.bin", Data: upData(size, 7)}}, Finish: true, Second: true}
+					if !alone {
+						c.Files = append(c.Files, upFile{Name: "whole.bin", Data: upData(3, 9)})
 					}
+					for i, ch := range base {
+						if mask&(1<<i) == 0 {
+							c.Chunks = append(c.Chunks, ch)
+						}
+					}
+					if !alone {
+						c.Chunks = append(c.Chunks, splitChunks(1, 3, 3)...)
+					}
+					segs(c, false)
 				}
-				c.Chunks = append(c.Chunks, splitChunks(1, 3, 3)...)
-				segs(c, false)
 			}
 		}
 		// every name with every dialect once
@@ -868,6 +877,18 @@ func c19Run(ctx *vc.Ctx, rep *vc.Report) {
 			names = append(names, "/"+n, n+"\x00.jpg", "a\x00/"+n)
 		}
 	}
+	// the other separator a terminal may use, in every arrangement with dots, slashes and a letter
+	sp2 := newStrSpace([]byte{'a', '.', '/', '\\'}, 5)
+	for i := int64(1); i < sp2.total; i++ {
+		if n := string(sp2.at(i, buf)); strings.Contains(n, "\\") {
+			names = append(names, n)
+		}
+	}
+	// every byte value in the places where a separator would matter
+	for b := 0; b < 256; b++ {
+		x := string([]byte{byte(b)})
+		names = append(names, ".."+x+"e", ".."+x+".."+x+"e", x+"../e", "a"+x+"../../e", x)
+	}
 	for k := 1; k <= 85; k += 7 {
 		n := strings.Repeat("../", k)
 		if len(n)+1 <= 255 {
@@ -876,6 +897,7 @@ func c19Run(ctx *vc.Ctx, rep *vc.Report) {
 	}
 	names = append(names, "../file.log", "../../etc/passwd", "/etc/passwd", "..", ".", "./..", "a/../../x", strings.Repeat("a", 50), strings.Repeat("../", 16)+"xy", strings.Repeat("a/", 100)+"b")
 	sort.Strings(names)
+	names = slices.Compact(names)
 	var idx int64
 	for _, phone := range []string{"13800138000", "1", "999999999999"} {
 		// names that climb out and land on a sibling whose name starts with this terminal's own directory name
